@@ -61,3 +61,44 @@ func ExploreSchedules(bound int, maxExec int64, exec func(choices []int) *verifr
 	explore(nil)
 	return st
 }
+
+// ExploreScheduleDeviations is ExploreSchedules with a different cost: every choice other than the default one
+// (index 0: the running thread goes on; when it cannot, the lowest enabled thread) is a deviation,
+// whether or not it preempts a runnable thread.  Executions in which two threads hand a channel back
+// and forth have a free choice at every blocking operation, so a preemption bound alone does not make
+// their schedule space small; a deviation bound does.  All schedules with <= bound deviations are
+// explored (maxExec > 0 caps the number of executions and sets Truncated when reached).
+func ExploreScheduleDeviations(bound int, maxExec int64, exec func(choices []int) *verifrt.Sched, visit func(s *verifrt.Sched, choices []int)) ScheduleStats {
+	var st ScheduleStats
+	var explore func(prefix []int, used int)
+	explore = func(prefix []int, used int) {
+		if maxExec > 0 && st.Executions >= maxExec {
+			st.Truncated = true
+			return
+		}
+		s := exec(prefix)
+		st.Executions++
+		st.Points += int64(len(s.Points))
+		if len(s.Points) > st.MaxPoints {
+			st.MaxPoints = len(s.Points)
+		}
+		choices := make([]int, len(s.Points))
+		for i, p := range s.Points {
+			choices[i] = p.Chosen
+		}
+		visit(s, choices)
+		if s.BadReplay != "" || used >= bound {
+			return
+		}
+		for i, p := range s.Points {
+			if i < len(prefix) {
+				continue
+			}
+			for alt := 1; alt < len(p.Enabled); alt++ {
+				explore(append(append([]int{}, choices[:i]...), alt), used+1)
+			}
+		}
+	}
+	explore(nil, 0)
+	return st
+}
